@@ -36,7 +36,7 @@ def _shift_rv(rv, off):
     k = rv["k"]
     if k in ("use", "cast", "repeat"):
         _shift_op(rv["op"], off)
-    elif k in ("ref", "addr", "discr", "copyderef"):
+    elif k in ("ref", "addr", "discr", "copyderef", "arr_head", "arr_tail"):
         _shift_place(rv["pl"], off)
     elif k == "bin":
         _shift_op(rv["a"], off)
@@ -464,6 +464,50 @@ class Inliner:
         "core::option::Option::<T>::or_else": ("Option", "Some", "None", "self", "call0"),
     }
 
+    def _expand_tuple_eq(self, b, t, callee, locals_, blocks):
+        """`(a, b) == (c, d)` on tuples of integers / bools / chars: the short-circuit chain of field comparisons the
+        library impl performs (so that `counts == (1, 0)` refines like `strong == 1 && weak == 0`)."""
+        st = callee["self_ty"]
+        elems = st.get("args") or []
+        args = t["args"]
+        if not elems or len(args) != 2 or any(e.get("k") not in ("int", "uint", "bool", "char") for e in elems):
+            return None
+        if any(a.get("k") not in ("move", "copy") for a in args):
+            return None
+        span = {k: t.get(k) for k in ("file", "line", "exp", "macro")}
+        cleanup = blocks[b]["cleanup"]
+        boolty = {"s": "bool", "k": "bool", "hp": False, "nd": False, "dp": 0}
+        is_ne = callee["def"].endswith("::ne")
+
+        def fld(arg, i):
+            pl = copy.deepcopy(arg["pl"])
+            pl["p"] = pl["p"] + ["*", {"f": i, "n": str(i), "of": ""}]
+            return {"k": "copy", "pl": pl}
+
+        def const_bool(v):
+            return {"k": "use", "op": {"k": "const", "ty": boolty, "int": "1" if v else "0", "desc": "true" if v else "false"}}
+        goto = {"k": "goto", "target": t["target"], **span} if t["target"] is not None else {"k": "unreachable", **span}
+        nb0 = len(blocks)
+        n = len(elems)
+        # blocks: nb0 .. nb0+n-2 = tests of fields 1..n-1 ; then equal-block ; then differ-block
+        eq_blk = nb0 + (n - 1)
+        ne_blk = eq_blk + 1
+        tests = []
+        for i in range(n):
+            tl = len(locals_)
+            locals_.append({"ty": boolty, "name": None})
+            stmt = {"k": "assign", "dst": {"l": tl, "p": []}, "rv": {"k": "bin", "op": "Eq", "a": fld(args[0], i), "b": fld(args[1], i)}, **span}
+            nxt = eq_blk if i == n - 1 else nb0 + i
+            term = {"k": "switch", "discr": {"k": "move", "pl": {"l": tl, "p": []}}, "targets": [["0", ne_blk]], "otherwise": nxt, **span}
+            tests.append((stmt, term))
+        blocks[b]["stmts"].append(tests[0][0])
+        blocks[b]["term"] = dict(tests[0][1], adaptor="tuple-eq")
+        for stmt, term in tests[1:]:
+            blocks.append({"cleanup": cleanup, "stmts": [stmt], "term": term})
+        blocks.append({"cleanup": cleanup, "stmts": [{"k": "assign", "dst": copy.deepcopy(t["dst"]), "rv": const_bool(not is_ne), **span}], "term": dict(goto)})
+        blocks.append({"cleanup": cleanup, "stmts": [{"k": "assign", "dst": copy.deepcopy(t["dst"]), "rv": const_bool(is_ne), **span}], "term": dict(goto)})
+        return list(range(nb0, ne_blk + 1))
+
     def _expand_ne(self, b, t, callee, locals_, blocks):
         """`a != b` on a type of the crate that only defines `eq` (derive(PartialEq) or a manual impl): the provided
         `ne` of core is `!eq(a, b)`."""
@@ -552,6 +596,51 @@ class Inliner:
         blocks[b]["term"] = {"k": "goto", "target": hdr, **span, "adaptor": "for_each"}
         return [hdr, sw, body, done]
 
+    @staticmethod
+    def _ref_target(blk, rl):
+        """The local that reference-local `rl` points to, when it was borrowed in this block (`_r = &mut it`, possibly
+        through the reborrow `_r2 = &mut *_r` of the for-loop desugaring)."""
+        for _ in range(4):
+            found = None
+            for s_ in blk["stmts"]:
+                if s_["k"] == "assign" and s_["dst"] == {"l": rl, "p": []}:
+                    found = s_["rv"]
+            if found is None or found["k"] != "ref":
+                return None
+            pl = found["pl"]
+            if not pl["p"]:
+                return pl["l"]
+            if pl["p"] == ["*"]:
+                rl = pl["l"]
+                continue
+            return None
+        return None
+
+    def _expand_array_iter(self, b, t, callee, locals_, blocks):
+        """`for x in [a, b]`: the array's by-value iterator is modelled as the array itself; `next` hands out its first
+        element and leaves the rest behind (evaluated by the interpreter when the array is a known aggregate)."""
+        st = callee.get("self_ty") or {}
+        args = t["args"]
+        span = {k: t.get(k) for k in ("file", "line", "exp", "macro")}
+        goto = {"k": "goto", "target": t["target"], **span} if t["target"] is not None else {"k": "unreachable", **span}
+        if callee["def"] == "core::iter::IntoIterator::into_iter":
+            is_array = st.get("k") in ("array", "slice") and str(st.get("s", "")).startswith("[") and ";" in str(st.get("s", "")) and st.get("peel", 0) == 0
+            if not is_array or len(args) != 1 or args[0]["k"] not in ("move", "copy"):
+                return None
+            blocks[b]["stmts"].append({"k": "assign", "dst": copy.deepcopy(t["dst"]), "rv": {"k": "use", "op": copy.deepcopy(args[0])}, **span})
+            blocks[b]["term"] = dict(goto, adaptor="array-into_iter")
+            return []
+        if st.get("adt") != "core::array::IntoIter" or st.get("peel", 0) != 0 or len(args) != 1 or args[0]["k"] not in ("move", "copy") or args[0]["pl"]["p"]:
+            return None
+        rl = args[0]["pl"]["l"]
+        it = self._ref_target(blocks[b], rl)
+        if it is None:
+            return None
+        blocks[b]["stmts"].append({"k": "assign", "dst": copy.deepcopy(t["dst"]), "rv": {"k": "arr_head", "pl": {"l": it, "p": []}, "site": b}, **span})
+        blocks[b]["stmts"].append({"k": "assign", "dst": {"l": it, "p": []}, "rv": {"k": "arr_tail", "pl": {"l": it, "p": []}, "site": b}, **span})
+        blocks[b]["term"] = dict(goto, adaptor="array-next")
+        return []
+
     def _expand_option_iter(self, b, t, callee, locals_, blocks):
         """`opt.into_iter()` is modelled as the Option itself, and `next` on it hands the Option out and leaves None behind
         (an Option's iterator yields its payload at most once)."""
@@ -569,11 +658,7 @@ class Inliner:
             return None
         # the receiver is `&mut it` taken in this block
         rl = args[0]["pl"]["l"]
-        it = None
-        for s_ in blocks[b]["stmts"]:
-            if s_["k"] == "assign" and s_["dst"] == {"l": rl, "p": []}:
-                rv = s_["rv"]
-                it = rv["pl"]["l"] if rv["k"] == "ref" and not rv["pl"]["p"] else None
+        it = self._ref_target(blocks[b], rl)
         if it is None:
             return None
         none = {"k": "agg", "ak": "adt", "name": "core::option::Option", "variant": "None", "vidx": 0, "fields": [], "ops": []}
@@ -833,6 +918,10 @@ class Inliner:
                 blocks[b]["term"] = {"k": "drop", "pl": copy.deepcopy(t["args"][0]["pl"]), "ty": aty, "target": t["target"], "unwind": t["unwind"], **span, "via_mem_drop": True}
                 self._rework.append(b)
                 return []
+        if callee is not None and callee["def"] in ("core::cmp::PartialEq::eq", "core::cmp::PartialEq::ne") and (callee.get("self_ty") or {}).get("k") == "tuple":
+            r = self._expand_tuple_eq(b, t, callee, locals_, blocks)
+            if r is not None:
+                return r
         if callee is not None and callee["def"] == "core::cmp::PartialEq::ne" and callee.get("resolved") in (None, "core::cmp::PartialEq::ne"):
             r = self._expand_ne(b, t, callee, locals_, blocks)
             if r is not None:
@@ -841,6 +930,9 @@ class Inliner:
             return self._expand_for_each(b, t, callee, locals_, blocks)
         if callee is not None and callee["def"] in ("core::iter::IntoIterator::into_iter", "core::iter::Iterator::next"):
             r = self._expand_option_iter(b, t, callee, locals_, blocks)
+            if r is not None:
+                return r
+            r = self._expand_array_iter(b, t, callee, locals_, blocks)
             if r is not None:
                 return r
         if callee is not None and callee["def"] == "core::iter::Iterator::try_for_each":
